@@ -1,57 +1,65 @@
 import TypstyleModel.Model.Env
-/-! A minimal partial-correctness logic for the model's monad `M = StateT Nat (Except Reject)`. -/
+/-! A minimal partial-correctness logic for the model's monad `M` (state + rejection). -/
 namespace Typstyle
 
-/-- Partial correctness: whenever `x` succeeds, its result satisfies `P`. -/
-def Post {α} (x : M α) (P : α → Prop) : Prop := ∀ k a k', x.run k = .ok (a, k') → P a
+@[simp] theorem M.run_pure {α : Type} (a : α) (s : St) : (pure a : M α).run s = .ok (a, s) := rfl
 
-theorem Post.pure {α} {P : α → Prop} {a : α} (h : P a) : Post (pure a : M α) P := by
+theorem M.run_bind {α β : Type} (x : M α) (f : α → M β) (s : St) :
+    (x >>= f).run s = match x.run s with
+      | .ok (a, s1) => (f a).run s1
+      | .error e => .error e := rfl
+
+@[simp] theorem M.run_reject {α : Type} (r : Reject) (s : St) : (reject r : M α).run s = .error r := rfl
+
+/-- Partial correctness: whenever `x` succeeds, its result satisfies `P`. -/
+def Post {α : Type} (x : M α) (P : α → Prop) : Prop := ∀ k a k', x.run k = .ok (a, k') → P a
+
+theorem Post.pure {α : Type} {P : α → Prop} {a : α} (h : P a) : Post (pure a : M α) P := by
   intro k a' k' hr
-  simp [StateT.run, Pure.pure, StateT.pure, Except.pure] at hr
+  simp only [M.run_pure, Except.ok.injEq, Prod.mk.injEq] at hr
   rw [← hr.1]; exact h
 
-theorem Post.bind {α β} {x : M α} {f : α → M β} {Q : α → Prop} {P : β → Prop}
+theorem Post.bind {α β : Type} {x : M α} {f : α → M β} {Q : α → Prop} {P : β → Prop}
     (hx : Post x Q) (hf : ∀ a, Q a → Post (f a) P) : Post (x >>= f) P := by
   intro k b k' hr
-  simp only [StateT.run_bind] at hr
+  rw [M.run_bind] at hr
   cases hxr : x.run k with
-  | error e => simp [hxr, Bind.bind, Except.bind] at hr
+  | error e => simp [hxr] at hr
   | ok p =>
     obtain ⟨a, k1⟩ := p
-    simp only [hxr, Bind.bind, Except.bind] at hr
+    simp only [hxr] at hr
     exact hf a (hx k a k1 hxr) k1 b k' hr
 
-theorem Post.rejected {α} {P : α → Prop} (r : Reject) : Post (Typstyle.reject r : M α) P := by
+theorem Post.rejected {α : Type} {P : α → Prop} (r : Reject) : Post (Typstyle.reject r : M α) P := by
   intro k a k' hr
-  simp [Typstyle.reject, throw, throwThe, MonadExceptOf.throw, StateT.run, StateT.lift, Bind.bind, Except.bind] at hr
+  simp at hr
 
-theorem Post.mono {α} {x : M α} {P Q : α → Prop} (h : Post x P) (hpq : ∀ a, P a → Q a) : Post x Q :=
+theorem Post.mono {α : Type} {x : M α} {P Q : α → Prop} (h : Post x P) (hpq : ∀ a, P a → Q a) : Post x Q :=
   fun k a k' hr => hpq a (h k a k' hr)
 
-theorem Post.tick {P : Unit → Prop} (h : P ()) : Post tick P := fun _ _ _ _ => h
+theorem Post.enter {P : Unit → Prop} (k : Entry) (id : Nat) (h : P ()) : Post (enter k id) P := fun _ _ _ _ => h
 
-theorem Post.map {α β} {x : M α} {f : α → β} {P : β → Prop} (h : Post x (fun a => P (f a))) : Post (f <$> x) P := by
-  rw [map_eq_pure_bind]
-  exact Post.bind h (fun a ha => Post.pure ha)
+theorem Post.map {α β : Type} {x : M α} {f : α → β} {P : β → Prop} (h : Post x (fun a => P (f a))) : Post (f <$> x) P :=
+  Post.bind (f := fun a => Pure.pure (f a)) h (fun _ ha => Post.pure ha)
 
-theorem Post.foldlM {α β} {step : β → α → M β} {Inv : β → Prop} :
+theorem Post.foldlM {α β : Type} {step : β → α → M β} {Inv : β → Prop} :
     ∀ (l : List α) (init : β), Inv init → (∀ acc x, Inv acc → Post (step acc x) Inv) → Post (l.foldlM step init) Inv := by
   intro l
   induction l with
-  | nil => intro init hi _; simpa using Post.pure hi
+  | nil => intro init hi _; exact Post.pure hi
   | cons x xs ih =>
     intro init hi hs
     simp only [List.foldlM_cons]
     exact Post.bind (hs init x hi) (fun acc hacc => ih acc hacc hs)
 
 /-- Fold with an invariant that is indexed by the list processed so far. -/
-theorem Post.foldlM_idx {α β} {step : β → α → M β} {Inv : List α → β → Prop} :
+theorem Post.foldlM_idx {α β : Type} {step : β → α → M β} {Inv : List α → β → Prop} :
     ∀ (l pre : List α) (init : β), Inv pre init →
       (∀ pre acc x, Inv pre acc → Post (step acc x) (Inv (pre ++ [x]))) →
       Post (l.foldlM step init) (Inv (pre ++ l)) := by
   intro l
   induction l with
-  | nil => intro pre init hi _; simpa using Post.pure hi
+  | nil => intro pre init hi _; simpa using (Post.pure hi : Post (Pure.pure init : M β) (Inv pre))
   | cons x xs ih =>
     intro pre init hi hs
     simp only [List.foldlM_cons]
